@@ -358,6 +358,58 @@ def run(ctx):  # noqa: C901, PLR0912, PLR0915
            'every branch of _update_corresponding_state carries the descriptor version into the state', fi=ucs,
            witness=n_dv)
 
+    # ------------------------------------------------------------ R6 no state is (re-)added for a removed descriptor
+    ctx.rule('C02.R6', 'states whose descriptor is removed in the same transaction are not added back (no orphan states)')
+    gd = cfg_of(dpt)
+    la = local_assignments(dpt.node)
+    sub = [nm for nm, vals in la.items() if any(isinstance(v, ast.Call) and call_name(v) == 'get_all_descriptors_in_subtree'
+                                                for v in vals)]
+    hs = gd.nodes_calling('_handle_state_updates')
+    if not hs:
+        raise AnalysisError('C02.R6: _handle_state_updates not found in DescriptorTransaction.process_transaction')
+    if not sub:
+        sub = [nm for nm, vals in la.items() if nm == 'all_descriptors']
+    # names that carry the removed descriptors / their handles
+    carriers = set(sub)
+    changed = True
+    while changed:
+        changed = False
+        for n in walk_no_nested(dpt.node):
+            tgt = None
+            if isinstance(n, ast.Assign) and isinstance(n.targets[0], ast.Name):
+                tgt, val = n.targets[0].id, n.value
+            elif isinstance(n, ast.Expr) and isinstance(n.value, ast.Call) and isinstance(n.value.func, ast.Attribute) \
+                    and n.value.func.attr in ('update', 'add', 'extend', 'append') and isinstance(n.value.func.value, ast.Name):
+                tgt, val = n.value.func.value.id, n.value
+            if tgt and tgt not in carriers and tgt != 'proc' and \
+                    any(isinstance(x, ast.Name) and x.id in carriers for x in ast.walk(val)):
+                carriers.add(tgt)
+                changed = True
+    carriers -= {'proc'}
+    # a filter of the state update dicts (del / pop / comprehension) that depends on a carrier, or the carrier is
+    # handed to _handle_state_updates, before the states are written
+    filt = []
+    for n in gd.real_nodes():
+        st = n.stmt
+        uses = any(isinstance(x, ast.Name) and x.id in carriers - set(sub) for x in n.walk())
+        if not uses:
+            continue
+        if n.kind == 'stmt' and isinstance(st, ast.Delete) and 'updates' in unparse(st):
+            filt.append(n)
+        if n.kind in ('for', 'stmt', 'test') and any(isinstance(c, ast.Call) and call_name(c) in ('pop', '_handle_state_updates')
+                                                     for c in n.walk()):
+            filt.append(n)
+        if n.kind == 'for' and 'updates' in n.text():
+            filt.append(n)
+    ok = bool(filt) and all(any(gd.dominates(f, h) or f is h for f in filt) for h, _ in hs)
+    ctx.ob('C02.R6', 'removed descriptors filter the state updates', ok,
+           'state updates of descriptors that this transaction removed (sub trees included) are dropped before the states '
+           'are written' if ok else
+           'DescriptorTransaction.process_transaction writes the collected state updates without regard to the descriptors '
+           'it removed: "update a child + delete its parent" or "delete a child + delete its grandparent" in one '
+           'transaction re-adds a state whose descriptor no longer exists (orphan state)', fi=dpt,
+           witness={'carriers': sorted(carriers), 'filters': [f.text()[:60] for f in filt]})
+
     # ------------------------------------------------------------ R5 single writer
     regs = [w for w in yields[0].withs]
     held = [unparse(i.context_expr) for w in regs for i in w.items]
@@ -598,6 +650,8 @@ SEEDS = [
     seed('delete removes only the descriptor itself', 'C02.R4',
          (_T, "                    all_descriptors = self._mdib.get_all_descriptors_in_subtree(orig_descriptor)\n",
           "                    all_descriptors = [orig_descriptor]\n")),
+    seed('removed descriptors no longer filter the state updates', 'C02.R6',
+         (_T, "                    removed_handles.update(d.Handle for d in all_descriptors)\n", "")),
     seed('transaction without tr_lock', 'C02.R5', (_P, "        with self._tr_lock, self.mdib_lock:\n            try:\n                self.current_transaction", "        with self.mdib_lock:\n            try:\n                self.current_transaction")),
     seed('control: rename local in get_state', 'C02.R2',
          (_T, "        copied_state = mdib_state.mk_copy()\n        copied_state.increment_state_version()\n        self._state_updates[descriptor_handle] = TransactionItem(mdib_state, copied_state)\n        return copied_state",
